@@ -665,6 +665,65 @@ def entry_point_layer_counts(chk, repo, rule, where='TidalPy/RadialSolver/solver
                key=f'{rule}|layers={L}', method='interpretation of the entry point (fixed-size C arrays carry their extent)')
 
 
+def entry_point_tuple_lengths(chk, repo, rule, where='TidalPy/RadialSolver/solver.pyx'):
+    """The per-layer tuples of the Python entry point (types, static / incompressible flags, upper radii) are indexed layer by layer with bounds checking switched off in the
+    compiled module: a tuple shorter than `layer_types` is then read past its end.  With each per-layer tuple in turn one element short (and one element long), the entry
+    point must end in an exception it raises itself -- not run on into the loop, where the interpreter's own IndexError stands for the unchecked read."""
+    from ..core import interp as I
+    from ..core.interp import Interp, Arr, FuncRef, RaiseSignal
+    import ast as _ast
+    ms = repo.by_path(where)
+    fw = ms.defs.get('radial_solver')
+    if not isinstance(fw, _ast.FunctionDef):
+        raise AnalysisError('radial_solver vanished')
+    rec = {}
+
+    def call_hook(itp, f, args, kwargs, e, fr):
+        nm = f.node.name if isinstance(f, FuncRef) else str(getattr(f, 'name', ''))
+        base = nm.split('.')[-1]
+        if base == 'cf_radial_solver':
+            rec['reached'] = True
+            return Opaque('solution')
+        if base in ('allocate_mem', 'reallocate_mem'):
+            return Arr('heap')
+        if base in ('PyMem_Free', 'free_mem', 'free'):
+            return None
+        return NotImplemented
+
+    def glob_hook(itp, mod, nm):
+        if nm == 'log': return Opaque('log')
+        return None
+    params = [a.arg for a in fw.args.args + fw.args.kwonlyargs]
+    per_layer = [p_ for p_ in ('layer_types', 'is_static_by_layer', 'is_incompressible_by_layer', 'upper_radius_by_layer') if p_ in params]
+    if len(per_layer) < 4:
+        raise AnalysisError(f'radial_solver: per-layer tuple parameters {per_layer} (expected 4)')
+    n = 8; L = 3
+    for short in per_layer[1:]:
+        for delta, dlab in ((-1, 'one element short'), (+1, 'one element long')):
+            arrs = {}
+            for nm in ('radius_array', 'density_array', 'gravity_array', 'bulk_modulus_array', 'complex_shear_modulus_array'):
+                a = Arr(nm, default=(lambda k, nm=nm: X.atom(f'{nm}[{k}]')), shape=(n,)); a.extent = n
+                arrs[nm] = a
+            kw = dict(arrs)
+            def ln(p_): return L + delta if p_ == short else L
+            kw.update({'frequency': X.atom('frequency', 'pos'), 'planet_bulk_density': X.atom('rho_bulk', 'pos'), 'layer_types': tuple('solid' for _ in range(ln('layer_types'))),
+                       'is_static_by_layer': tuple(False for _ in range(ln('is_static_by_layer'))), 'is_incompressible_by_layer': tuple(False for _ in range(ln('is_incompressible_by_layer'))),
+                       'upper_radius_by_layer': tuple(X.atom(f'upper_radius{i}', 'pos') for i in range(ln('upper_radius_by_layer')))})
+            rec.clear(); I.OOB_LOG.clear()
+            it = Interp(repo, hooks={'call': call_hook, 'global': glob_hook}, max_depth=6)
+            raised = None
+            try:
+                it.call(ms, fw, [], kw)
+            except RaiseSignal as ex:
+                raised = ex.text
+            I.OOB_LOG.clear()
+            unchecked = raised is not None and raised.startswith('IndexError')
+            ok = raised is not None and not unchecked
+            why = ('the tuple is indexed past its end (an unchecked read in the compiled module)' if unchecked else ('the mismatch is not refused: the call runs on' + (' into the compiled driver' if rec.get('reached') else ''))) if not ok else ''
+            chk.ob(rule, f'radial_solver with `{short}` {dlab} ({L + delta} entries for {L} layers): refused with an exception before any per-layer tuple is indexed', ok, why, ms.where(fw),
+                   key=f'{rule}|tuple|{short}|{dlab}', method='interpretation of the entry point with mismatched per-layer tuples')
+
+
 def malformed_structures(chk, repo, rule, where='TidalPy/RadialSolver/solver.pyx'):
     """Layer structures the solver cannot integrate (a layer with no slices, a layer with too few slices -- innermost, middle or outermost): the executed driver must end
     in a Python exception before a solver is built for that layer and without touching memory outside any array."""
